@@ -592,7 +592,8 @@ func (x *Exec) mfRead(st *State, field string, ref Term, idx []mfIdx, t types.Ty
 		for j := len(idx) - 1; j >= 0; j-- {
 			sort = arrSort(idx[j].Sort, sort)
 		}
-		a := Select(x.arr(st, "MF."+field+l.suffix+":"+l.sort, arrSort(SRef, sort)), ref)
+		name := "MF." + field + l.suffix + ":" + l.sort
+		a := Select(x.arr(st, name, arrSort(SRef, sort)), x.mfSource(st, name, ref))
 		for _, ix := range idx {
 			a = Select(a, ix.T)
 		}
@@ -943,6 +944,11 @@ func (x *Exec) builtin(fr *Frame, st *State, b *ssa.Builtin, c *ssa.CallCommon, 
 		case MapV:
 			card := x.mapCard(st, a)
 			x.assumeAt(st, "(>= "+card+" 0)")
+			// a map of length zero has no keys
+			mt := a.Typ.Underlying().(*types.Map)
+			ks := x.keySort(mt.Key())
+			dom := x.mapDom(st, a)
+			x.assumeAt(st, Implies(Eq(card, "0"), fmt.Sprintf("(forall ((q %s)) (! (not (select %s q)) :pattern ((select %s q))))", ks, dom, dom)))
 			return intV(m.def("len", SInt, Ite(Eq(a.Ref, NilRef), "0", card)))
 		case Scalar:
 			if a.Sort == SStr {
